@@ -140,6 +140,26 @@ spec('box-map-default-options', ['C13'], 'DELEG', 'DELEG:', [
 spec('concat-writer-error-dropped', ['C07'], 'IOERR', 'IOERR:<concat_source::ConcatSource as source::Source>::to_writer', [
     (CC, '      child.to_writer(writer)?;', '      let _ = child.to_writer(writer);')])
 
+WI = 'src/with_indices.rs'
+spec('unsafe-impl-sync', ['C18', 'C19'], 'NO-UNSAFE-SYNC', 'NO-UNSAFE-SYNC:', [
+    (ROPE, '''impl<'a> Rope<'a> {
+  /// Creates a new empty rope.''', '''unsafe impl<'a> Sync for Rope<'a> {}
+
+impl<'a> Rope<'a> {
+  /// Creates a new empty rope.''')])
+spec('new-unaudited-unsafe', ['C19'], 'UNSAFE-SITES', 'UNSAFE-SITES:', [
+    (HP, '''          Some(pos) => (&self.haystack[..=pos], &self.haystack[pos + 1..]),''',
+         '''          Some(pos) => (unsafe { self.haystack.get_unchecked(..=pos) }, &self.haystack[pos + 1..]),''')])
+spec('transmute-of-local', ['C19'], 'UNSAFE-SITES', 'UNSAFE-SITES:', [
+    (RS, '''          let repl = unsafe {
+            std::mem::transmute::<&Replacement, &'a Replacement>(repls[i])
+          };''', '''          let tmp_repl = repls[i].clone();
+          let repl = unsafe {
+            std::mem::transmute::<&Replacement, &'a Replacement>(&tmp_repl)
+          };''')])
+spec('substring-raw-indices', ['C19'], 'UNSAFE-SITES', 'UNSAFE-SITES:', [
+    (WI, 'self.line.byte_slice_unchecked(start..end)', 'self.line.byte_slice_unchecked(start_index..end_index)')])
+
 
 def main():
     os.makedirs(os.path.join(V, 'canaries'), exist_ok=True)
